@@ -22,19 +22,30 @@ fn f4_search(n: usize) -> (u16, u16, u16) {
 }
 
 fn enc_cmap_sub(m: &CmapSubM) -> Vec<u8> {
+    enc_cmap_sub_with(m, None)
+}
+
+/// `junk`: values for the header fields the reader does not use (format 4 searchRange,
+/// entrySelector, rangeShift, reservedPad; the length of formats 0 (≥ 262), 6, 10 and 12) — a
+/// sub-table written by a sloppy tool; the mapping it describes is the same
+fn enc_cmap_sub_with(m: &CmapSubM, junk: Option<[u16; 4]>) -> Vec<u8> {
     let mut b = Buf::new();
     match m {
         CmapSubM::F0 { lang, gids } => {
-            b.u16(0).u16(262).u16(*lang).bytes(gids);
+            b.u16(0).u16(junk.map_or(262, |j| 262u16.saturating_add(j[0] & 0xFF))).u16(*lang).bytes(gids);
         }
         CmapSubM::F4 { lang, segs, gia } => {
             let n = segs.len();
-            let (sr, es, rs) = if n == 0 { (0, 0, 0) } else { f4_search(n) };
+            let (sr, es, rs) = match junk {
+                Some(j) => (j[0], j[1], j[2]),
+                None if n == 0 => (0, 0, 0),
+                None => f4_search(n),
+            };
             b.u16(4).u16((16 + 8 * n + 2 * gia.len()) as u16).u16(*lang).u16((2 * n) as u16).u16(sr).u16(es).u16(rs);
             for s in segs {
                 b.u16(s.1);
             }
-            b.u16(0);
+            b.u16(junk.map_or(0, |j| j[3]));
             for s in segs {
                 b.u16(s.0);
             }
@@ -49,19 +60,19 @@ fn enc_cmap_sub(m: &CmapSubM) -> Vec<u8> {
             }
         }
         CmapSubM::F6 { lang, first, gids } => {
-            b.u16(6).u16((10 + 2 * gids.len()) as u16).u16(*lang).u16(*first).u16(gids.len() as u16);
+            b.u16(6).u16(junk.map_or((10 + 2 * gids.len()) as u16, |j| j[0])).u16(*lang).u16(*first).u16(gids.len() as u16);
             for g in gids {
                 b.u16(*g);
             }
         }
         CmapSubM::F10 { lang, start, gids } => {
-            b.u16(10).u16(0).u32((20 + 2 * gids.len()) as u32).u32(*lang).u32(*start).u32(gids.len() as u32);
+            b.u16(10).u16(0).u32(junk.map_or((20 + 2 * gids.len()) as u32, |j| (j[0] as u32) << 16 | j[1] as u32)).u32(*lang).u32(*start).u32(gids.len() as u32);
             for g in gids {
                 b.u16(*g);
             }
         }
         CmapSubM::F12 { lang, groups } => {
-            b.u16(12).u16(0).u32((16 + 12 * groups.len()) as u32).u32(*lang).u32(groups.len() as u32);
+            b.u16(12).u16(0).u32(junk.map_or((16 + 12 * groups.len()) as u32, |j| (j[0] as u32) << 16 | j[1] as u32)).u32(*lang).u32(groups.len() as u32);
             for g in groups {
                 b.u32(g.0).u32(g.1).u32(g.2);
             }
@@ -243,6 +254,18 @@ fn check_cmap_sub(m: &CmapSubM, rec: &mut Rec) -> CaseResult {
     if g2 != raw {
         return Err(fail("cmap:gen2-bytes", diff(&g2, &raw)));
     }
+    // the same sub-table with junk in the header fields the reader ignores: same value, canonical output
+    let h = crate::engine::util::fnv1a(&raw);
+    if h % 2 == 0 {
+        let junk = [(h >> 8) as u16, (h >> 24) as u16, (h >> 40) as u16, (h >> 48) as u16 | 1];
+        let sloppy = enc_cmap_sub_with(m, Some(junk));
+        let g2 = stable!("cmap-sloppy-header", &sloppy, |d| ReadScope::new(d).read::<CmapSubtable<'_>>(), |t| wb::<CmapSubtable<'_>, _>(t), |a, b| same(a, b));
+        if g2 != raw {
+            return Err(fail("cmap-sloppy-header:gen2-bytes", diff(&g2, &raw)));
+        }
+        rec.class("cmap:ignored-header-fields-non-canonical");
+        rec.evaluations(1);
+    }
     rec.evaluations(pr.len() as u64);
     match m {
         CmapSubM::F0 { .. } => rec.class("cmap:format0"),
@@ -348,6 +371,41 @@ fn check_cmap_table(recs: &Vec<(u16, u16, CmapSubM)>, rec: &mut Rec) -> CaseResu
         }
         Ok(ocmap::Cmap { encoding_records: out })
     };
+    // my own encoding of the same table: identical sub-tables stored once and shared by several
+    // encoding records, sub-tables stored in reverse order of the records
+    {
+        let h = crate::engine::util::fnv1a(&written);
+        let (share, reverse) = (h % 2 == 0, h / 2 % 2 == 0);
+        let subs: Vec<Vec<u8>> = recs.iter().map(|r| enc_cmap_sub(&r.2)).collect();
+        let mut body = Buf::new();
+        let mut at = vec![0usize; recs.len()];
+        let order: Vec<usize> = if reverse { (0..recs.len()).rev().collect() } else { (0..recs.len()).collect() };
+        let base = 4 + 8 * recs.len();
+        let mut shared = false;
+        for (n, &i) in order.iter().enumerate() {
+            if share {
+                if let Some(&j) = order[..n].iter().find(|j| subs[**j] == subs[i]) {
+                    at[i] = at[j];
+                    shared = true;
+                    continue;
+                }
+            }
+            at[i] = base + body.len();
+            body.bytes(&subs[i]);
+        }
+        let mut mine = Buf::new();
+        mine.u16(0).u16(recs.len() as u16);
+        for (i, r) in recs.iter().enumerate() {
+            mine.u16(r.0).u16(r.1).u32(at[i] as u32);
+        }
+        mine.bytes(&body.0);
+        let g2 = stable!("cmap-table-bytes", &mine.0, |d| to_owned_table(d), |t| wb::<ocmap::Cmap, _>(t.clone()), |a, b| if *a == v && *b == v { Ok(()) } else { Err(format!("{:?} vs {:?}", a, v)) });
+        if g2 != written {
+            return Err(fail("cmap-table-bytes:gen2-bytes", diff(&g2, &written)));
+        }
+        rec.class_if(shared, "cmap-table:sub-table-shared-by-records");
+        rec.class_if(reverse && recs.len() >= 2, "cmap-table:sub-tables-in-reverse-order");
+    }
     let g2 = stable!("cmap-table", &written, |d| to_owned_table(d), |t| wb::<ocmap::Cmap, _>(t.clone()), |a, b| if *a == v && *b == v { Ok(()) } else { Err(format!("{:?} vs {:?}", a, v)) });
     if g2 != written {
         return Err(fail("cmap-table:gen2-bytes", diff(&g2, &written)));
